@@ -11,8 +11,9 @@ tie    : harness/c19.cpp drives the three methods of the working tree (methods/<
          draws: shuffled array and updated pairs must agree exactly in every iteration; coordinates are
          replayed in binary64 from the model's pairs (tolerance stream, 1e-9); RP is replayed in exact
          rationals when sqrt(D) is exact; RP / FA translation pairs on dyadic data with N a power of two
-         must agree bit for bit.  The extracted decision procedure spe_log_check runs on the
-         implementation's own logs.
+         must agree bit for bit; the extracted fa_embed is replayed in exact rationals on small cases with
+         fa_epsilon = 0; the binary64 transcription of the update is cross-checked against the extracted
+         spe_step.  The extracted decision procedure spe_log_check runs on the implementation's own logs.
 tests  : (labelled measured tests, not theorems) scale-optimal normalised stress of the global strategy
          over seeds, neighbour-distance error of the local strategy, first four moments and lag-1 product
          of the shipped polar-method Gaussian (build -DC19_PLAIN).
@@ -30,7 +31,8 @@ TRUSTED = [
     "hand-written model coq/Spe_Model.v tied by differential replay of logged random streams (not a proof about the C++ text)",
     "oracles: tapkee::random_shuffle (hook H1 reports the applied permutation; contract 'is a permutation' re-checked on every call), "
     "uniform_random / gaussian_random (CUSTOM_*_RANDOM_FUNCTION, logged), sqrt (norms of SPE: binary64 replay only; sqrt(D) of RP: exact when D is a square), "
-    "Eigen inverse/determinant/log in routines/fa.hpp (function oracles in the model: FA is tied through its two proved consequences only)",
+    "Eigen inverse/determinant/log in routines/fa.hpp (function oracles in the model; replayed with an exact Gauss-Jordan inverse whose contract "
+    "M*R = I is re-checked on every call, only for fa_epsilon = 0 and small sizes; otherwise FA is tied through its two proved consequences)",
     "IEEE rounding: coordinates compared in binary64 with relative tolerance 1e-9 (tolerance stream); exact stream = indices, pairs, rational RP, bit-for-bit translation pairs",
     "extraction (ExtrOcamlBasic only) + OCaml 4.13.1 + coq/extract/c19_driver.ml (parsing/printing)",
     "harness/c19.cpp (embed_with<> replicates tapkee::embed's check/merge/ImplementationBase/validate/embed for one method); g++ ASan/UBSan/_GLIBCXX_ASSERTIONS",
@@ -642,6 +644,12 @@ def eval_pairs(ctx, exe, mexe, cases, st):
             ctx.violation(pc, "%s output has shape %s, expected %s" % (c["kind"], r0["shape"], (N, d)))
             continue
         finite = is_finite_rows(Y0) and is_finite_rows(Y1)
+        if not finite:
+            if c["kind"] == "RP":
+                ctx.violation(pc, "random projection returns non-finite coordinates on finite data (the output is a finite "
+                                  "linear function of the data and the oracle draws)")
+                continue
+            st.count("FA/nonfinite-output")       # singular covariance / EM breakdown: not claimed by the property
         # translation invariance
         if finite:
             scale = max([abs(v) for row in Y0 for v in row] + [1e-300])
